@@ -93,7 +93,8 @@ func strCapitalizeFunc(_ *ctx.EvalCtx, receiver object.Object, _ ...object.Objec
 		return &object.Str{Value: ""}, nil
 	}
 
-	newVal := strings.ToUpper(val[:1]) + val[1:]
+	chars := []rune(val)
+	newVal := strings.ToUpper(string(chars[:1])) + string(chars[1:])
 
 	return &object.Str{Value: newVal}, nil
 }
